@@ -540,6 +540,12 @@ class Engine:
         if isinstance(v, VBool):
             return VBool(z3.Bool(fresh_name(name)))
         if isinstance(v, VSeq):
+            if getattr(v, "untyped_empty", False):
+                # `[]` whose element type is not known yet: a list of arbitrary objects
+                arr = fresh_arr(name, Val)
+                n = z3.Int(fresh_name(name + "_len"))
+                self.assume(n >= 0)
+                return seq_from_array(arr, n, "list", esort="val")
             arr = fresh_arr(name, Val if v.esort == "val" else z3.IntSort())
             n = z3.Int(fresh_name(name + "_len"))
             self.assume(n >= 0)
@@ -603,6 +609,10 @@ class Engine:
             return any(self.exc_is_subclass(e.cls, n) for n in names)
         # unknown exception class bounded by e.any_of
         ub = e.any_of or "BaseException"
+        excl = getattr(e, "excluded", [])
+        names = [n for n in names if not any(self.exc_is_subclass(n, x) for x in excl)]
+        if not names:
+            return False
         if any(self.exc_is_subclass(ub, n) for n in names):
             return True
         if not any(self.exc_is_subclass(n, ub) for n in names):
@@ -1669,8 +1679,14 @@ class Engine:
                 self.havoc_reachable(a)
         if may_raise and not self.spec:
             if self.branch(fresh_bool("opaque_raises"), free=True):
-                raise PyExc(None, site=getattr(node, "lineno", None), any_of="Exception")
+                raise PyExc(None, site=getattr(node, "lineno", None), any_of=self.fault_bound())
         return VOpaque(tag=f"ret:{what}")
+
+    def fault_bound(self):
+        cur = getattr(self.vf, "current", None)
+        if cur is not None and cur.options.get("faults") == "base":
+            return "BaseException"       # incl. KeyboardInterrupt (C07 fault quantifier)
+        return "Exception"
 
     def havoc_effects(self, ref, effects, name):
         """Havoc the part of the heap object behind `ref` that the syntactic effects may change."""
@@ -1788,7 +1804,7 @@ class Engine:
                 self.heap[bound[mname].addr] = self.havoc_like(self.heap[bound[mname].addr], mname)
             elif "." in mname:
                 parts = mname.split(".")
-                b = bound.get(parts[0])
+                b = env.get(parts[0])
                 # walk to the object that owns the last field
                 for fld in parts[1:-1]:
                     if isinstance(b, VRef) and isinstance(self.heap[b.addr], VObj):
@@ -1819,15 +1835,31 @@ class Engine:
                     if self.branch(fresh_bool(f"raises_{exc}"), free=True):
                         for p in posts or []:
                             self.assume(self.eval_spec_bool(p, cfr, extra=env))
+                        if exc in ("BaseException", "Exception"):
+                            # "any other exception": class unknown, bounded by exc, and not one of
+                            # the classes the contract lists separately
+                            pe = PyExc(None, site=getattr(node, "lineno", None), any_of=exc)
+                            pe.excluded = [x for x in con.raises if x != exc]
+                            raise pe
                         raise PyExc(exc, site=getattr(node, "lineno", None))
                 if con.raises_any:
                     if self.branch(fresh_bool("raises_any"), free=True):
                         raise PyExc(None, site=getattr(node, "lineno", None), any_of="Exception")
-            res = self.make(con.returns, f"ret_{con.func.split('.')[-1]}")
+            if con.returns == "self":
+                res = args[0]
+            else:
+                res = self.make(con.returns, f"ret_{con.func.split('.')[-1]}")
             env2 = dict(env)
             env2["result"] = res
             for p in con.ensures:
                 self.assume(self.eval_spec_bool(p, cfr, extra=env2))
+            if not self.spec and con.ensures:
+                site = (con.func, getattr(node, "lineno", 0))
+                st = self.vf.call_feas.setdefault(site, [0, 0])
+                if self.solver.check() == z3.unsat:
+                    st[1] += 1
+                    raise PathEnd("callee postcondition contradicts the caller's state")
+                st[0] += 1
         finally:
             self.old_state = saved_old
         return res
